@@ -85,3 +85,21 @@ Theorem C15_SE3_slerp_one eps A B : 0 < eps -> se3_valid A -> se3_valid B ->
   (forall tx ty tz x y z w, se3_compose RS eps (se3_inverse RS A) B = [tx; ty; tz; x; y; z; w] -> eps < x * x + y * y + z * z /\ w <> 0) ->
   @interpolate_slerp RS (SE3 RS eps) A B 1 = Ok B \/ @interpolate_slerp RS (SE3 RS eps) A B 1 = Ok (firstn 3 B ++ @vneg RS (skipn 3 B)).
 Proof. intros H. exact (se3_slerp_one eps H A B). Qed.
+
+(* SE_2(3) and SGal(3): the same (negq B = B with the four quaternion coefficients negated: the same transformation) *)
+From Manif Require Import SE23 SGal3 SE23Proofs Interp_SE23.
+Theorem C15_SE23_slerp_zero eps A B : 0 < eps -> se23_valid A -> se23_valid B -> @interpolate_slerp RS (SE23 RS eps) A B 0 = Ok A.
+Proof. intros H. exact (se23_slerp_zero eps H A B). Qed.
+Theorem C15_SE23_slerp_one eps A B : 0 < eps -> se23_valid A -> se23_valid B ->
+  (forall tx ty tz x y z w vx vy vz, se23_compose RS eps (se23_inverse RS A) B = [tx; ty; tz; x; y; z; w; vx; vy; vz] -> eps < x * x + y * y + z * z /\ w <> 0) ->
+  @interpolate_slerp RS (SE23 RS eps) A B 1 = Ok B \/ @interpolate_slerp RS (SE23 RS eps) A B 1 = Ok (negq B).
+Proof. intros H. exact (se23_slerp_one eps H A B). Qed.
+Theorem C15_SGal3_slerp_zero eps A B : 0 < eps -> sg_valid A -> sg_valid B -> @interpolate_slerp RS (SGal3 RS eps) A B 0 = Ok A.
+Proof. intros H. exact (sg_slerp_zero eps H A B). Qed.
+Theorem C15_SGal3_slerp_one eps A B : 0 < eps -> sg_valid A -> sg_valid B ->
+  (forall px py pz x y z w vx vy vz t, sg_compose RS eps (sg_inverse RS A) B = [px; py; pz; x; y; z; w; vx; vy; vz; t] -> eps < x * x + y * y + z * z /\ w <> 0) ->
+  @interpolate_slerp RS (SGal3 RS eps) A B 1 = Ok B \/ @interpolate_slerp RS (SGal3 RS eps) A B 1 = Ok (negq B).
+Proof. intros H. exact (sg_slerp_one eps H A B). Qed.
+Print Assumptions C15_SGal3_slerp_one.
+Example C15_negq : negq [1; 2; 3; 4; 5; 6; 7; 8; 9; 10] = [1; 2; 3; -4; -5; -6; -7; 8; 9; 10].
+Proof. reflexivity. Qed.
